@@ -2,7 +2,54 @@
 
 package actor
 
+import (
+	"sync/atomic"
+	"unsafe"
+)
+
+var _ = unsafe.Pointer(nil)
+
 // VerifC13CtxErr returns the error recorded on the context by Stash/Unstash/UnstashAll (ReceiveContext.getError).
 func VerifC13CtxErr(rctx *ReceiveContext) error {
 	return rctx.getError()
+}
+
+// VerifC13MailboxChain returns the ReceiveContext objects linked in an UnboundedMailbox, sentinel first
+// (consumer-side use only; at most max entries, so a cyclic chain terminates).
+func VerifC13MailboxChain(m *UnboundedMailbox, max int) []*ReceiveContext {
+	var out []*ReceiveContext
+	for p := (*ReceiveContext)(atomic.LoadPointer(&m.head)); p != nil && len(out) < max; p = (*ReceiveContext)(atomic.LoadPointer(&p.next)) {
+		out = append(out, p)
+	}
+	return out
+}
+
+// VerifC13StashChain is the same for pid's stash mailbox (nil when there is no stash buffer).
+func VerifC13StashChain(pid *PID, max int) []*ReceiveContext {
+	if pid.stashState == nil || pid.stashState.box == nil {
+		return nil
+	}
+	return VerifC13MailboxChain(pid.stashState.box, max)
+}
+
+// VerifC13PoolSnapshot returns the contexts that are free in the global pool right now (they are taken
+// out and put back; a concurrent getContext that finds the pool empty meanwhile just allocates).
+func VerifC13PoolSnapshot() []*ReceiveContext {
+	var out []*ReceiveContext
+	for {
+		select {
+		case c := <-contextCh:
+			out = append(out, c)
+			continue
+		default:
+		}
+		break
+	}
+	for _, c := range out {
+		select {
+		case contextCh <- c:
+		default:
+		}
+	}
+	return out
 }
